@@ -47,6 +47,9 @@ type evSpec struct {
 	Category *string `json:"category,omitempty"` // nil = missing
 	Service  *string `json:"service,omitempty"`
 	CatInt   bool    `json:"cat_int,omitempty"` // category stored as a non-string value
+	// OwnToken: the event reaches the bus already carrying a "token" key (attributes copied in from a peer, or an
+	// event relayed from elsewhere): 1 = a foreign string, 2 = a number.  What is delivered carries the sensor's token.
+	OwnToken int `json:"own_token,omitempty"`
 	SvcInt   bool    `json:"svc_int,omitempty"`
 }
 
@@ -148,6 +151,9 @@ func genC06(seed uint64, idx int, tier string) *Scenario {
 			default:
 				c := r.Pick(c06Svcs)
 				e.Service = &c
+			}
+			if r.Chance(0.1) {
+				e.OwnToken = r.Range(1, 2)
 			}
 			ej, _ := json.Marshal(e)
 			a.Ops = append(a.Ops, Op{K: "emit", Exp: ej})
@@ -269,6 +275,12 @@ func c06Run(t *testing.T, sc *Scenario, p *c06Params) (*Obs, *c06Got) {
 			}
 			got.Emitted[key] = [2]string{specValue(e.Category, e.CatInt), specValue(e.Service, e.SvcInt)}
 			got.Order[w.Sc.Actors[ai].Name] = append(got.Order[w.Sc.Actors[ai].Name], key)
+			switch e.OwnToken {
+			case 1:
+				opts = append(opts, event.CopyFrom(map[string]interface{}{"token": "aaaaaaaaaaaaaaaaaaaa"}))
+			case 2:
+				opts = append(opts, event.Custom("token", 42))
+			}
 			ev := event.New(opts...)
 			// a sender is its own goroutine (it may park in a slow channel); it sends sequentially
 			q, ok := queues[ai]
